@@ -9,6 +9,7 @@ import (
 	"sync"
 	"testing"
 
+	"github.com/weedbox/pokerface"
 	"github.com/weedbox/pokerface/combination"
 	"pgregory.net/rapid"
 
@@ -48,7 +49,8 @@ var implCatName = combination.CombinationSymbol
 
 // checkPair is the library-free oracle used by replay: hands[0] vs hands[1].
 func checkC03(c c03Case) *vlib.Violation {
-	table, order := Table(c.ShortTable)
+	_, order := Table(c.ShortTable)
+	table := shippedTable(c.ShortTable)
 	open := c.ShortDeck || c.ShortTable
 	var sc []uint64
 	var keys []uint64
@@ -81,11 +83,26 @@ func checkC03(c c03Case) *vlib.Violation {
 	return nil
 }
 
+// shippedTable returns the ranking table of a variant the way callers obtain
+// it. Both constructors are called every time (short deck first), as a process
+// that serves both variants does.
+func shippedTable(short bool) []combination.Combination {
+	sd := pokerface.NewShortDeckGameOptions()
+	std := pokerface.NewStardardGameOptions()
+	if short {
+		return sd.CombinationPowers
+	}
+	return std.CombinationPowers
+}
+
 var orderSeed = vlib.EnvInt("VERIF_SEED", 1) & 0xffff
 
 func enumeratePass(shortDeck, shortTable bool, st *vlib.Stats, mu *sync.Mutex) (*c03Case, *vlib.Violation) {
 	deck := Deck(shortDeck)
 	table, order := Table(shortTable)
+	// the "shipped ranking tables" as a caller gets them: from the option
+	// constructors, both of which have been used in this process
+	table = shippedTable(shortTable)
 	open := shortDeck || shortTable
 	n := len(deck)
 	workers := runtime.NumCPU()
@@ -252,7 +269,7 @@ type c03PermCase struct {
 }
 
 func checkC03Perm(c c03PermCase) *vlib.Violation {
-	table, _ := Table(c.ShortTable)
+	table := shippedTable(c.ShortTable)
 	if len(c.Other) == 0 {
 		// recorded by the purity part of the stage: partial hands first, then the hand
 		for mask := 1; mask < 31; mask++ {
@@ -351,7 +368,7 @@ func TestC03Perm(t *testing.T) {
 		// hands it partial hands (hole cards alone before the flop), so every proper
 		// subset of the hand is evaluated first - in this process, right before - and
 		// the hand must still get its category and its place in the order.
-		table, _ := Table(c.ShortTable)
+		table := shippedTable(c.ShortTable)
 		for mask := 1; mask < 31; mask++ {
 			var sub []string
 			for k := 0; k < 5; k++ {
